@@ -77,7 +77,7 @@ def gen_plan(rng, index, tier):
     steps = []
     kinds = ["swap", "swap", "cascade", "discharge_fresh", "discharge_pool", "add", "remove", "remove"]
     if cfg["rejected"]:
-        kinds += ["add_occupied", "remove_absent", "readd_present", "readd_removed", "add_copy"]
+        kinds += ["add_occupied", "remove_absent", "readd_present", "readd_removed", "add_copy", "add_stale_counter"]
     for _ in range(rng.randint(4, 40)):
         op = rng.choice(kinds)
         s = {"op": op, "a": rng.randrange(1000), "b": rng.randrange(1000)}
@@ -85,7 +85,7 @@ def gen_plan(rng, index, tier):
             s["idx"] = [rng.randrange(1000) if rng.random() > 0.15 else None for _ in range(rng.randint(2, 5))]
             if s["idx"][0] is None:
                 s["idx"][0] = 0
-        if op in ("discharge_fresh", "add", "add_occupied"):
+        if op in ("discharge_fresh", "add", "add_occupied", "add_stale_counter"):
             s["type"] = rng.choice(["igniter fuel", "outer fuel"])
         if op == "remove":
             s["discharge"] = rng.random() < 0.6
@@ -318,7 +318,10 @@ class World:
                     return False
                 inc = sorted(m.pool)[st["b"] % len(m.pool)]
             if not m.stationary_compatible(inc, out):
-                return False
+                if fresh:
+                    return False  # (the fresh assembly was never part of the inventory)
+                # a stored assembly whose stationary blocks do not line up: refused, and it stays stored
+                return self.expect_refusal(k, st, lambda: fh.dischargeSwap(self.h2o[inc], self.h2o[out]))
             fh.dischargeSwap(self.h2o[inc], self.h2o[out])
             m.discharge(inc, out, fresh)
             return True
@@ -345,6 +348,22 @@ class World:
             p = occ[st["a"] % len(occ)]
             obj = core.createAssemblyOfType(assemType=st["type"])
             return self.expect_refusal(k, st, lambda: core.add(obj, core.spatialGrid[p[0], p[1], 0]))
+        if op == "add_stale_counter":
+            # the reactor's assembly counter is behind (as after a restart from an older state): the fresh
+            # assembly is handed a number that an assembly of the core carries - refused, nothing changes
+            free = [p for p in self.free if p not in m.loc]
+            src = self.pick_core(st["a"])
+            if not free or src is None:
+                return False
+            p = free[st["b"] % len(free)]
+            r = self.core.r
+            true_max = int(r.p.maxAssemNum)
+            r.p.maxAssemNum = int(self.h2o[src].p.assemNum)
+            obj = core.createAssemblyOfType(assemType=st["type"])
+            try:
+                return self.expect_refusal(k, st, lambda: core.add(obj, core.spatialGrid[p[0], p[1], 0]))
+            finally:
+                r.p.maxAssemNum = max(true_max, int(r.p.maxAssemNum))
         if op == "add_copy":
             # a deep copy of an assembly of the core carries that assembly's name: adding it at a free
             # location must be refused (entirely)
